@@ -38,6 +38,7 @@ func (e *Emitter) Emit(v interface{}) {
 	e.w.WriteByte('\n')
 	e.n++
 	e.last = time.Now()
+	e.w.Flush() // a crash of the implementation must not take completed cases with it
 	e.mu.Unlock()
 }
 
